@@ -1,7 +1,67 @@
 import TTV.Sexp
-/-! Driver glue for C09 — stub, replaced when the property's model is built. -/
+import TTV.Model.StreamConvert
+import TTV.Spec.C09
+import TTV.Drv.StreamCodec
+/-! Driver glue for C09.
+input  = `(explicitStart (test…))`, test = `(id gtags t0 ltags t1 result)`, tags = `none` | `(some ((new…) (gone…)))`
+result = `(success D?)` | `(uxsuccess D?)` | `(error P)` | `(failure P)` | `(xfail P)` | `(skip S)`;
+         D? = `none` | `(some (detail…))`; P = `err` | `(details detail…)`; S = `none` | `(reason (cp…))` | `(details detail…)`
+detail = `(name mime (chunk…))`
+trace  = `(mid ext)`, mid = `start` | `stop` | `(status event)` -/
 namespace TTV.Drv.C09
-open TTV
+open TTV TTV.Sexp TTV.Stream TTV.Stream.Convert TTV.Drv.StreamCodec
 
-def handle (_ : List Sexp) : Sexp := .atom "unimplemented"
+def detailIn? : Sexp → Option DetailIn
+  | .list [a, b, c] => do some { name := ← nat? a, mime := ← nat? b, chunks := ← list? (list? nat?) c }
+  | _ => none
+
+def errPayload? : Sexp → Option ErrPayload
+  | .atom "err" => some .err
+  | .list (.atom "details" :: ds) => do some (.details (← ds.mapM detailIn?))
+  | _ => none
+
+def skipPayload? : Sexp → Option SkipPayload
+  | .atom "none" => some .none
+  | .list [.atom "reason", r] => do some (.reason (← list? nat? r))
+  | .list (.atom "details" :: ds) => do some (.details (← ds.mapM detailIn?))
+  | _ => none
+
+def result? : Sexp → Option Result
+  | .list [.atom "success", d] => do some (.success (← opt? (list? detailIn?) d))
+  | .list [.atom "uxsuccess", d] => do some (.uxsuccess (← opt? (list? detailIn?) d))
+  | .list [.atom "error", p] => (errPayload? p).map .error
+  | .list [.atom "failure", p] => (errPayload? p).map .failure
+  | .list [.atom "xfail", p] => (errPayload? p).map .xfail
+  | .list [.atom "skip", p] => (skipPayload? p).map .skip
+  | _ => none
+
+def test? : Sexp → Option TestIn
+  | .list [a, b, c, d, e, f] => do
+      some { id := ← nat? a, gtags := ← opt? (pair? (list? nat?) (list? nat?)) b, t0 := ← opt? nat? c,
+             ltags := ← opt? (pair? (list? nat?) (list? nat?)) d, t1 := ← opt? nat? e, result := ← result? f }
+  | _ => none
+
+def input? : Sexp → Option Convert.Input
+  | .list [a, b] => do some { explicitStart := ← bool? a, tests := ← list? test? b }
+  | _ => none
+
+def streamEv? : Sexp → Option StreamEv
+  | .atom "start" => some .start
+  | .atom "stop" => some .stop
+  | .list [.atom "status", e] => (event? e).map .status
+  | _ => none
+def ofStreamEv : StreamEv → Sexp
+  | .start => .atom "start"
+  | .stop => .atom "stop"
+  | .status e => tag "status" [ofEvent e]
+
+def trace? : Sexp → Option Convert.Trace
+  | .list [a, b] => do some { mid := ← list? streamEv? a, ext := ← list? extEv? b }
+  | _ => none
+def ofTrace (t : Convert.Trace) : Sexp := .list [ofList ofStreamEv t.mid, ofList ofExtEv t.ext]
+
+def drv : PropDrv Convert.Input Convert.Trace :=
+  { decI := input?, decT := trace?, encT := ofTrace, model := model, clauses := Spec.C09.clauses }
+
+def handle : List Sexp → Sexp := drv.handle
 end TTV.Drv.C09
